@@ -18,6 +18,18 @@ SERIALIZE_ERROR = "s3s::ops::serialize_error"
 # R1 funnel
 # ------------------------------------------------------------------------------------------------
 
+def _is_rendered(body, w):
+    """the return write hands on the result of serialize_error (directly, or through copies of the local that call's result was stored in)"""
+    if w["kind"] == "call":
+        return callee_def(w["term"]) == SERIALIZE_ERROR
+    if w["kind"] == "use" and "rv" in w and w["rv"]["ops"]:
+        ch = flow.resolve_chain(body, w["rv"]["ops"][0]) or []
+        if ch:
+            srcs = [df for df in body.defs().get(ch[-1][0], []) if df["kind"] != "mutarg"]
+            return bool(srcs) and all(df["kind"] == "call" and callee_def(df["term"]) == SERIALIZE_ERROR for df in srcs)
+    return False
+
+
 def funnel_body_ok(db, body, depth=0, seen=None):
     """every error this body can return was rendered: returns list of (body, bi, what) offending return writes"""
     seen = seen if seen is not None else set()
@@ -28,7 +40,7 @@ def funnel_body_ok(db, body, depth=0, seen=None):
     for w in flow.return_writes(body):
         if w["kind"] == "Ok":
             continue
-        if w["kind"] == "call" and callee_def(w["term"]) == SERIALIZE_ERROR:
+        if _is_rendered(body, w):
             continue
         if w["kind"] in ("Err", "residual", "use", "call", "other"):
             op = w["rv"]["ops"][0] if "rv" in w and w["rv"]["ops"] else (w["term"]["args"][0] if "term" in w and w["term"]["args"] else None)
@@ -69,7 +81,7 @@ def rule_r1(chk, db):
     bad = funnel_body_ok(db, body)
     chk.verdict(not bad, "R1", "ops::call.returns", body.loc(bad[0][1]) if bad else body.loc(),
                 "; ".join("%s at %s" % (w, b.loc(bi)) for b, bi, w in bad[:3]), detail={"return_writes": len(rw)})
-    chk.floor("R1.returns", len(rw), 3, "return writes of ops::call")
+    chk.floor("R1.returns", len(rw), 2, "return writes of ops::call (a response, a rendered error)")
     # every Err outcome of prepare / Operation::call / the custom-route future reaches serialize_error
     fallible = []
     for bi, t in body.calls():
@@ -92,13 +104,13 @@ def rule_r1(chk, db):
             for st in body.blocks[bi]["stmts"]:
                 if st["rv"]["k"] == "agg" and st["rv"].get("agg") in ("coroutine", "closure"):
                     o = flow.outcomes_of_local(body, st["dst"]["l"])
-        errs = o.get("Err") if o else set()
+        errs = o.get("Err", "Break") if o else set()      # `match x { Err(e) => .. }` or `x.map_err(..)?`
         if not errs:
             chk.fail("R1", "funnel:" + nm, body.loc(bi), "cannot find the Err outcome of %s in ops::call" % nm)
             continue
         r = flow.reach_from_edges(body, errs)
         # on the Err side, the only return writes reachable must be serialize_error calls
-        bad = [w for w in rw if w["bi"] in r and not (w["kind"] == "call" and callee_def(w["term"]) == SERIALIZE_ERROR)]
+        bad = [w for w in rw if w["bi"] in r and not _is_rendered(body, w)]
         # writes that are also reachable from the Ok side through shared join blocks do not count: restrict to first write
         firsts = []
         for e in errs:
@@ -116,7 +128,7 @@ def rule_r1(chk, db):
                 for _, tb in body.succ_edges(x):
                     if not body.blocks[tb]["cleanup"]:
                         st.append(tb)
-        bad = [w for w in firsts if not (w["kind"] == "call" and callee_def(w["term"]) == SERIALIZE_ERROR)]
+        bad = [w for w in firsts if not _is_rendered(body, w)]
         chk.verdict(bool(firsts) and not bad, "R1", "funnel:" + nm, body.loc(bi),
                     "an error of %s can leave ops::call without passing serialize_error (%s)" % (nm, [(w["kind"], body.loc(w["bi"])) for w in bad]))
     # S3Service::call: HttpError::new only from the Err arm of ops::call
